@@ -366,7 +366,8 @@ class C11(HostProp):
         nam = rng.choice([None, None, "PROG", "game", "Hello123", "VERYLONGNAME", "A"]) if rng.chance(0.3) else (GF.name(rng) if rng.chance(0.6) else None)
         cli_name = None if rng.chance(0.3) else (GF.name(rng) if rng.chance(0.7) else nam)
         org = rng.choice([None, 0, 0x80, 0xFF, 0x100, 0x0E00, 0x3F00, 0x7FFF, 0x8000, 0xC000, rng.below(65536)])
-        size = rng.choice([None, None, None, 1, 254, 255, 256, 2294, 2295, 4603, 10000, 30000, 65000]) if rng.chance(0.5) else None
+        # small_program(size=n) assembles to n + 1 bytes; the disk stream is image + 10: hit sector and granule multiples exactly
+        size = rng.choice([None, None, None, 1, 254, 255, 256, 245, 501, 2549, 2293, 2294, 2295, 4597, 4602, 4603, 10000, 30000, 65000]) if rng.chance(0.5) else None
         if org is not None and size is not None and org + size > 65535:
             size = max(1, 65535 - org - 8)
         lines = small_program(rng, name=nam, org=org, size=size, end_label=rng.choice([True, False, None]), nam=nam is not None)
@@ -444,6 +445,10 @@ class C16(HostProp):
                     op["files"].append("NOTTHERE")
             elif r < 5:
                 op["files"] = ["NOTTHERE"]
+            if rng.chance(0.2):
+                # several switches in one invocation: every target must receive the same selection
+                others = [k for k in KINDS if k != to]
+                op["also"] = [{"to": k, "dst": "hop%d_%s%s" % (hop, k, EXT[k])} for k in rng.sample(others, rng.randint(1, 2))]
             if to != "bin" and rng.chance(0.25):
                 st = rng.choice(["tool_" + to, "peer_" + to])
                 ops.append({"op": "setup", "path": dst, **state_desc(rng, st, unique)})
